@@ -619,6 +619,10 @@ func (u *Unit) Preamble() string {
 		b.WriteString("(declare-fun sbytes (Str) (Array Int Int))\n(declare-fun mkstr ((Array Int Int) Int Int) Str)\n")
 		b.WriteString("(assert (forall ((s Str)) (! (= (mkstr (sbytes s) 0 (slen s)) s) :pattern ((sbytes s)))))\n")
 	}
+	if u.Mode == ModeBV {
+		// a Go string's length is a non-negative int
+		b.WriteString("(assert (forall ((s Str)) (! (bvsge (slen s) #x0000000000000000) :pattern ((slen s)))))\n")
+	}
 	b.WriteString("(declare-fun root (Int) Int)\n")
 	b.WriteString("(declare-fun dyn (Int) Int)\n")
 	b.WriteString("(declare-fun kind (Int) Int)\n")
